@@ -290,4 +290,66 @@ def rule_g(prog, rep):
     c10.rule_f(prog, Proxy(rep, 'C09.g'))
 
 
-RULES = [('C09.g', rule_g), ('C09.a', rule_a), ('C09.b', rule_b), ('C09.c', rule_c), ('C09.d', rule_d), ('C09.e', rule_e), ('C09.f', rule_f)]
+def rule_h(prog, rep):
+    rep.rule('C09.h', 'T7+T3', 'the registrations that are flushed are all registrations: Worterbuch::grave_goods / last_wills read '
+             '$SYS/clients/?/graveGoods resp. $SYS/clients/?/lastWill with pget, decode every returned value and push every decoded '
+             'entry onto the list they return (no filter, no early exit); export() / export_for_persistence() hand out exactly these '
+             'two lists next to the store')
+    crate = prog.crate(WB)
+    for fname, const in (('grave_goods', 'SYSTEM_TOPIC_GRAVE_GOODS'), ('last_wills', 'SYSTEM_TOPIC_LAST_WILL')):
+        f = crate.fn(f'{CORE}::{fname}')
+        b = Bindings(crate, f)
+        problems = []
+        txt = deep_text(crate, f.hir)
+        for c_ in ('SYSTEM_TOPIC_ROOT', 'SYSTEM_TOPIC_CLIENTS', const):
+            if c_ not in txt:
+                problems.append(f'the pattern does not name {c_}')
+        other = 'SYSTEM_TOPIC_LAST_WILL' if const.endswith('GRAVE_GOODS') else 'SYSTEM_TOPIC_GRAVE_GOODS'
+        if other in txt:
+            problems.append(f'the pattern names {other}')
+        if 'KeySegment::Wildcard' not in txt:
+            problems.append('the client segment is not the `?` wildcard')
+        pg = crate.calls(f, lambda c: c == f'{CORE}::pget')
+        if len(pg) != 1:
+            problems.append(f'{len(pg)} pget calls')
+        pushes = [(nd, anc) for nd, anc in crate.walk_fn(f) if nd.get('k') == 'call' and short(callee(nd)) == 'push' and 'Vec' in callee(nd)]
+        if len(pushes) != 1:
+            problems.append(f'{len(pushes)} push sites')
+        else:
+            nd, anc = pushes[0]
+            loops = [a for a in anc if isinstance(a, dict) and a.get('k') == 'for']
+            conds = [it for it in guards(anc + (nd,)) if it[0] == 'if']
+            # guards: `if let Ok(..) = self.pget(..)` and `if let Ok(..) = serde_json::from_value(..)` only
+            extra = [it for it in conds if not (it[1].get('k') == 'letcond' and it[2] is True)]
+            if len(loops) != 2 or extra:
+                problems.append('an entry is pushed only under an additional condition / not for every decoded entry')
+            if not any('[*]' in x for x in b.origins(nd['args'][1])):
+                problems.append(f'what is pushed is not the decoded entry ({sorted(b.origins(nd["args"][1]))})')
+            tail = f.hir
+            body = crate.user_body(f).hir
+            ret = body.get('tail') if body.get('k') == 'block' else None
+            while isinstance(ret, dict) and ret.get('k') == 'block' and 'tail' in ret:
+                ret = ret['tail']
+            if not (isinstance(ret, dict) and ret.get('k') == 'path' and ret.get('id') == (nd['args'][0].get('id') if nd['args'][0].get('k') == 'path' else
+                                                                                         (nd['args'][0].get('e') or {}).get('id'))):
+                problems.append('the list that is filled is not the one returned')
+        def _dead(a):   # the `if false { .. return .. }` artefact of #[instrument]
+            return any(isinstance(y, dict) and y.get('k') == 'if' and y['cond'].get('k') == 'lit' and y['cond']['v'].get('v') is False for y in a)
+        exits = [x.get('k') for x, a in walk(crate.user_body(f).hir) if x.get('k') in ('return', 'break', 'continue', 'try') and
+                 not x.get('x') and not _dead(a)]
+        if exits:
+            problems.append(f'early exit ({sorted(set(exits))})')
+        if problems:
+            rep.violation('C09.h', f'Worterbuch::{fname}', f.loc, '; '.join(problems), key=f'C09.h/{fname}/' + '|'.join(p_.split(' (')[0] for p_ in problems))
+        else:
+            rep.ok('C09.h', f'Worterbuch::{fname}', f.loc, f'pget($SYS/clients/?/{const}) -> every decoded entry pushed -> returned')
+    for fname in ('export', 'export_for_persistence'):
+        f = crate.fn(f'{CORE}::{fname}')
+        cs = {callee(nd) for nd, a in crate.calls(f)}
+        if f'{CORE}::grave_goods' in cs and f'{CORE}::last_wills' in cs:
+            rep.ok('C09.h', f'Worterbuch::{fname}', f.loc, 'store + grave_goods() + last_wills()')
+        else:
+            rep.violation('C09.h', f'Worterbuch::{fname}', f.loc, 'does not export both registration lists', key=f'C09.h/{fname}/lists')
+
+
+RULES = [('C09.h', rule_h), ('C09.g', rule_g), ('C09.a', rule_a), ('C09.b', rule_b), ('C09.c', rule_c), ('C09.d', rule_d), ('C09.e', rule_e), ('C09.f', rule_f)]
